@@ -3,7 +3,7 @@
 (* `column OP literal` over the always-available columns of world W2, with   *)
 (* literals drawn from the attribute values present in the tree, their       *)
 (* neighbours and a few others.  One TLC state per atom.                     *)
-EXTENDS WorldC02, Lang, Json, FiniteSets
+EXTENDS WorldC02, Lang, Json, FiniteSets, TLC
 
 VARIABLES atom, phase
 NoAtom == [col |-> "", op |-> ""]
@@ -13,12 +13,13 @@ OrdOps == {"eq", "ne", "gt", "gte", "lt", "lte"}
 
 IntLits(col) ==
   CASE col = "size" -> { IntL(v) : v \in {-2, -1, 0, 1, 8, 9, 10, 11, 12, 100, 1022, 1023, 1024, 1025, 1026, 2048, 2049, 4096} }
-                       \cup { SizeL(1024, "1k"), SizeL(1000, "1kb"), SizeL(1024, "1kib"), SizeL(2048, "2k"), SizeL(1024, "1K"), SizeL(10, "10b") }
+                       \cup { SizeL(1024, "1k"), SizeL(1000, "1kb"), SizeL(1024, "1kib"), SizeL(2048, "2k"), SizeL(1024, "1K"), SizeL(10, "10b"),
+                              SizeL(1000000, "1mb"), SizeL(1048576, "1mib"), SizeL(1048576, "1m"), SizeL(1000000, "1MB"), SizeL(1000000, "1000kb") }
     [] col = "uid" -> { IntL(v) : v \in {-1, 0, 1, 999, 1000, 1001} }
     [] col = "gid" -> { IntL(v) : v \in {0, 999, 1000, 1001, 2000} }
     [] col = "hardlinks" -> { IntL(v) : v \in {-1, 0, 1, 2, 3} }
     [] col = "line_count" -> { IntL(v) : v \in {0, 1, 2, 3, 4, 5} }
-    [] col = "length(name)" -> { IntL(v) : v \in {2, 3, 4, 5, 6, 8, 9} }
+    [] col = "length(name)" -> { IntL(v) : v \in {2, 3, 4, 5, 6, 7, 8, 9} }
 
 IntCols == {"size", "uid", "gid", "hardlinks", "line_count", "length(name)"}
 IntAtomSet == UNION { { A1(col, op, l, "int/" \o op) : op \in CmpOps, l \in IntLits(col) } : col \in IntCols }
@@ -29,6 +30,10 @@ BetweenAtoms == { A("size", "between", IntL(9), IntL(11), "int/between"), A("siz
                   A("line_count", "between", IntL(1), IntL(3), "int/between"), A("uid", "between", IntL(1), IntL(1000), "int/between"),
                   A("length(name)", "between", IntL(4), IntL(5), "int/between") }
 
+(* W2x: W2 plus a name with two 2-byte characters (6 characters, 8 bytes) and sizes on and between 10^6 and 2^20 (sparse files) *)
+Big(i, nm, sz) == N(i, 0, "file", nm, <<>>, 420, 0, 0, T0 + 90000 + i, 0, -3) @@ [bigsize |-> sz]
+W2x == [nodes |-> W2.nodes \o << N(15, 0, "file", <<"r","é","ż",".","m","d">>, Runs(5, 1), 420, 0, 0, T0 + 90000, 0, -3),
+                                  Big(16, <<"m","1">>, "1000000"), Big(17, <<"m","2">>, "1020000"), Big(18, <<"m","3">>, "1048576") >>]
 Names == { W2.nodes[i].namec : i \in 1 .. Len(W2.nodes) }
 Exts == { <<"t","x","t">>, <<"l","o","g">>, <<"b","i","n">>, <<>>, <<"t","x">>, <<"z","i","p">> }
 TextLits(col) ==
@@ -90,10 +95,10 @@ Init == atom = NoAtom /\ phase = "start"
 Next == phase = "start" /\ atom' \in Atoms /\ phase' = "done"
 Spec == Init /\ [][Next]_<<atom, phase>>
 
-Scenario == [prop |-> "C02", class |-> atom.class, world |-> "W2", formula |-> [f |-> "atom", a |-> atom],
+Scenario == [prop |-> "C02", class |-> atom.class, world |-> "W2x", formula |-> [f |-> "atom", a |-> atom],
              env |-> [tz |-> "UTC", cwd |-> 0],
              runs |-> << [tag |-> "q", ncols |-> 1,
                           argv |-> << "select path from '.' where " \o CondText(atom) \o " into list" >>] >>]
-EmitWorld == (phase = "start") => PrintT(<<"WORLD", ToJson([key |-> "W2", world |-> W2])>>)
+EmitWorld == (phase = "start") => PrintT(<<"WORLD", ToJson([key |-> "W2x", world |-> W2x])>>)
 Emit == phase = "done" => PrintT(<<"REPLAY", ToJson(Scenario)>>)
 =============================================================================
